@@ -104,6 +104,7 @@ class PathEnumerator:
         self.no_inline = set(no_inline or ())
         self.split_ite = True                       # a conditional expression assigned / returned is read as the if-statement it abbreviates
         self.loop_view = False                      # spell comprehensions over private helpers as loops (see normalize.Normalizer.body)
+        self.single_use_any = False                 # opt-in: a function called at one place only is read as part of its caller, however its result is used
         self.unroll_literal_loops = True            # ``for x in (a, b, c)`` over a literal is read as the straight-line code it abbreviates
 
     def function_paths(self, fn: FunctionInfo, self_cls=None, args: Optional[Dict[str, Term]] = None) -> List[Path]:
@@ -495,7 +496,8 @@ class PathEnumerator:
     def _single_use(self, g: FunctionInfo, fr: Frame) -> bool:
         """defined once under this name, called at exactly one place in the package (here), never passed around, not part of an interface --
         and its result is taken apart right at the call (``a, b = f(..)``): the decide / apply split of one function"""
-        if not self._unpacking_stmt:
+        own = fr.fn is not None and ((g.cls is not None and g.cls is fr.fn.cls) or (g.cls is None and g.module is fr.fn.module))
+        if not (self._unpacking_stmt or (self.single_use_any and own)):
             return False
         if g.name.startswith("__") or g.kind in ("property", "setter") or "abstractmethod" in g.decorators:
             return False
